@@ -178,6 +178,7 @@ theorem dtype_step {s : State} (hw : WF s) {l : Nat} (hl : l < s.nLayers) (op : 
   | remove a => exact Or.inl (dtypeOf_sameShape (sameShape_remove ..) l)
   | empties => exact Or.inl rfl
   | nbhdMask k geom torus c ic r => exact Or.inl (dtypeOf_sameShape (sameShape_nbhdMask ..) l)
+  | gridSet n => exact Or.inl (dtypeOf_sameShape (sameShape_gridSet ..) l)
   | select ms oe conds exts save =>
     left; simp only [step]
     split
